@@ -51,7 +51,8 @@ def make_original(kind):
     return Interrupt('original')
 
 
-ACTIONS = ['noop', 'inner', 'off', 'on', 'nest', 'raise-new']
+ACTIONS = ['noop', 'inner', 'off', 'on', 'nest', 'raise-new',
+           'raise-new-base']
 
 
 def run_action(X, ctxt, action, state):
@@ -78,6 +79,10 @@ def run_action(X, ctxt, action, state):
                 pass
     elif action == 'raise-new':
         new = OSError('new failure')
+        state[1] = new
+        raise new
+    elif action == 'raise-new-base':
+        new = Interrupt('new interrupt')
         state[1] = new
         raise new
 
@@ -345,7 +350,7 @@ def real_interpreter_family():
         return [(f.filename, f.lineno, f.name)
                 for f in traceback.extract_tb(tb)]
     acts = ['noop', 'inner', 'off', 'on', 'nest', 'raise-new',
-            'force-and-catch']
+            'raise-new-base', 'force-and-catch']
     kinds = ['plain', 'needs-args', 'chained', 'base-exception',
              'pre-raised']
     for n in (0, 1, 2, 3):
